@@ -26,7 +26,7 @@ from common import VERIF, blit, llit, olit, zlit
 
 ID = 'C13'
 TECHNIQUE = ('Coq proof over an executable model of is_cached/is_stale/expire_timestamp/_create_single_tile/_create_meta_tile '
-             '+ correspondence check of the model against the real TileManager over file, mbtiles and sqlite caches')
+             '+ correspondence check of the model against the real TileManager over file, mbtiles and sqlite caches; the decision kernels of is_cached/is_stale/expire_timestamp/before_timestamp_from_options are regenerated from the source by the ast translator (Gen_expiry.v) and proved equal to the model')
 LEVEL_TEXT = ('Theorems over the Gallina model Expiry.v for every cache state, clock value, threshold kind (absolute, relative, '
               'mtime of a file), upstream script and request list (unbounded), single-tile and meta-tile creation; every '
               'reachable state of a history is such a state.  The model is tied to mapproxy/cache/tile.py, seed/config.py, '
